@@ -789,6 +789,31 @@ func (env *Env) evalCall(e *SExpr) Val {
 		return env.eng.convert(env.st, x, t)
 	}
 	// spec function?
+	if sf := env.eng.specFunc(env.pkg, name); sf != nil && sf.Macro {
+		if len(sf.Params) != len(e.Args) {
+			env.errf("wrong number of arguments to %s", name)
+			return intVal("0")
+		}
+		n := env.child()
+		tenv := &Env{eng: env.eng, pkg: env.eng.typesPkg(sf.Pkg), where: "spec macro " + sf.Name}
+		for i, p := range sf.Params {
+			a := arg(i)
+			if t := tenv.typeOf(p.Type); t != nil {
+				a = env.coerce(a, t)
+				a.T = t
+			}
+			n.vars[p.Name] = a
+		}
+		if p := env.eng.typesPkg(sf.Pkg); p != nil {
+			n.pkg = p
+		}
+		r := n.eval(sf.Body)
+		if rt := tenv.typeOf(sf.Result); rt != nil {
+			r = env.coerce(r, rt)
+			r.T = rt
+		}
+		return r
+	}
 	if sf := env.eng.specFunc(env.pkg, name); sf != nil {
 		sym, ptypes, rt := env.eng.defineSpecFunc(env, sf)
 		if len(ptypes) != len(e.Args) {
